@@ -58,8 +58,8 @@ CHECKS = {
         technique='runtime monitoring: reference-model monitor over stdout/stderr/exit status of the real btcdeb binary under pty/pipe combinations, plus paired runs across quiet/debug settings (ASan+UBSan build)',
         text='Exploration: generated scripts (incl. ones failing through C++ exceptions) and signature contexts are run by the real binary in each non-terminal stdin/stdout combination, script on stdin or argv, three times with different '
              '--quiet / --debug / DEBUG_* settings; stdout must be exactly the reference final stack (hex, bottom to top) with exit 0, or a script error on stderr with exit 1; never a signal or sanitizer report; identical results across option settings; '
-             '--verbose refused; interactive stepping (scripted REPL) reaches the same final stack.',
-        note='trusted: ref/script.py (C01); pty handling in vf/proc.py; scripts > 480 bytes only via argv',
+             '--verbose refused; interactive stepping (scripted REPL) reaches the same final stack. Resource fault injection: five long runs over ~1000 stack items of 520 bytes on the plain build under a 3 GiB address-space ceiling must end normally with the reference result.',
+        note='trusted: ref/script.py (C01); pty handling in vf/proc.py; scripts > 480 bytes only via argv; the 3 GiB ceiling is several thousand times the data involved',
         ref='5 C08'),
     'C09': dict(
         technique='runtime monitoring: set-arithmetic monitor over the flag listing / flag word of the real btcdeb (scripted REPL), behavioural probes, and a relational monotonicity monitor over chains of flag sets (ASan+UBSan build)',
